@@ -150,9 +150,6 @@ def classify(case):
     # N9 seen by the grouping rule: TRUE / FALSE read as (ungrouped) column names on mssql
     if d == "mssql" and kind == "scopex" and diag[0] == 24 and (names[2] or "").lower() in ("true", "false"):
         return "C07-N9-mssql-boolean-literal"
-    # N16: DISTINCT ON over a grouped SELECT none of whose columns is used: the NULL placeholder of the select list is replaced by `*`
-    if kind == "scopex" and diag[0] == 25 and re.search(r"SELECT DISTINCT ON \([^)]*\) \* FROM\b", code) and "GROUP BY" in code and re.search(r"\b(group|aggregate)\b", src):
-        return "C07-N16-star-placeholder-in-grouped-distinct-on"
     # N12 seen by the ambiguity rule: the widened operand has the sort column twice (`SELECT b.a, t.a ..`), its reader names it
     if kind == "scopex" and diag[0] == 21 and re.search(r"\bsort\b", src) and re.search(r"\b(append|remove|intersect|loop)\b", src) \
             and re.search(r"\b(UNION|EXCEPT|INTERSECT)\b", code) and re.search(r",\s*[\"`]?\w+[\"`]?\.[\"`]?%s[\"`]? FROM\b" % re.escape(names[1] or "?"), sql):
